@@ -281,6 +281,7 @@ def guarded(fn, *a, timeout_s=None, **kw):
 def worker_chunk(prop, tier, base_seed, lo, hi, want_samples, digests_only=False):
     """Execute runs lo..hi-1. Returns a picklable summary."""
     faulthandler.enable()
+    t_chunk0 = time.time()
     eng = get_engine(prop)
     stats = Counter()
     foreign = Counter()
@@ -321,7 +322,9 @@ def worker_chunk(prop, tier, base_seed, lo, hi, want_samples, digests_only=False
             if kind and kind not in [s[0] for s in samples]:
                 samples.append((kind, r.trace))
     out = {"n": n, "events": events, "stats": dict(stats), "foreign": dict(foreign), "violations": viols,
-           "abstracts": abstracts, "samples": samples, "harness": harness}
+           "abstracts": abstracts, "samples": samples, "harness": harness,
+           # which process executed this chunk and when it began: the order of the chunks of one worker is its history
+           "worker": (os.getpid(), t_chunk0, lo, hi)}
     if digests_only:
         out["digests"] = digests
     return out
@@ -432,22 +435,38 @@ def history_in_fresh_process(prop: str, path: str) -> tuple[int, str]:
     return p.returncode, p.stdout + p.stderr
 
 
-def history_replay_for(prop, tier, base_seed, cand, chunk=100):
-    """A violating run that does not reproduce from its own trace: look for the shortest suffix of its worker chunk (the runs
-    the same process executed just before it) after which it does, in a fresh process. Returns (path, length) or None."""
+def worker_history(worker_log, idx):
+    """The run indices the worker process that executed run `idx` had executed before it, in order, ending with idx."""
+    mine = [w for w in (worker_log or []) if w and w[2] <= idx < w[3]]
+    if not mine:
+        return None
+    pid = mine[0][0]
+    chunks = sorted((w for w in worker_log if w and w[0] == pid and w[1] <= mine[0][1]), key=lambda w: w[1])
+    out = []
+    for _, _, lo, hi in chunks:
+        out.extend(range(lo, min(hi, idx + 1) if lo <= idx < hi else hi))
+    return out
+
+
+def history_replay_for(prop, tier, base_seed, cand, chunk=100, worker_log=None):
+    """A violating run that does not reproduce from its own trace: look for the shortest suffix of the history of its worker
+    process (the runs that process executed before it, over all its work chunks) after which it does, in a fresh process.
+    Returns (path, length) or None."""
     idx = cand["index"]
-    start = idx - idx % chunk
+    full = worker_history(worker_log, idx) or list(range(idx - idx % chunk, idx + 1))
     viol = Violation.from_json(cand["violation"])
     os.makedirs(os.path.join(VERIF_DIR, "replays"), exist_ok=True)
     path = os.path.join(VERIF_DIR, "replays", f"{prop}-{viol.cls}-history-{cand['seed']:016x}.json")
     tried = []
-    for n in (2, 3, 5, 9, 17, 33, 65, chunk):
-        lo = max(start, idx - n + 1)
-        if lo in tried:
-            continue
-        tried.append(lo)
+    t_end = time.time() + 600
+    n = 2
+    while True:
+        n = min(n, len(full))
+        if n in tried or time.time() > t_end:
+            break
+        tried.append(n)
         doc = {"kind": "history", "engine": get_engine(prop).name if hasattr(get_engine(prop), "name") else prop,
-               "property": prop, "tier": tier, "verif_seed": base_seed, "run_indices": list(range(lo, idx + 1)),
+               "property": prop, "tier": tier, "verif_seed": base_seed, "run_indices": full[-n:],
                "expected": viol.to_json(), "scoda_tree": repo_tree_id(),
                "note": "the last run violates the property only after the earlier ones have run in the same process: the system "
                        "under test carries state from one call to later, unrelated calls"}
@@ -455,9 +474,10 @@ def history_replay_for(prop, tier, base_seed, cand, chunk=100):
             json.dump(doc, f, indent=1, default=_jdefault)
         rc, _ = history_in_fresh_process(prop, path)
         if rc == EXIT_VIOLATION:
-            return path, idx - lo + 1
-        if lo == start:
+            return path, n
+        if n >= len(full):
             break
+        n = n * 2 - 1
     try:
         os.remove(path)
     except OSError:
@@ -530,6 +550,7 @@ def run_batch(prop: str, tier: str, base_seed: int, total_runs: int, wall_budget
             agg["stats"].update(res["stats"])
             agg["foreign"].update(res["foreign"])
             agg["violations"].extend(res["violations"])
+            agg.setdefault("worker_log", []).append(res.get("worker"))
             agg["abstracts"].update(res["abstracts"])
             agg["harness"].extend(res["harness"])
             for kind, tr in res["samples"]:
@@ -593,7 +614,7 @@ def classify_and_report(prop: str, tier: str, base_seed: int, agg: dict, quiet=F
                 hist = None
                 for cand in item["cands"][:3]:
                     try:
-                        hist = history_replay_for(prop, tier, base_seed, cand)
+                        hist = history_replay_for(prop, tier, base_seed, cand, worker_log=agg.get("worker_log"))
                     except BaseException as e:
                         agg["harness"].append({"error": f"history replay of run {cand['index']} crashed: {e!r}"})
                         hist = None
